@@ -545,6 +545,11 @@ func (x *Exec) loopEnter(st *State, li *loopInfo, from *ssa.BasicBlock) {
 		return
 	}
 	ls := x.spec.Loops[li.ord]
+	if ls == nil && x.eng.sweepLoops {
+		ls = &LoopSpec{N: li.ord}
+		x.spec.Loops[li.ord] = ls
+		x.assumeNote("sweep: loops without a declared invariant are cut with the trivial invariant (only lock-discipline obligations are claimed for them)")
+	}
 	if ls == nil {
 		unsupp("loop %d of %s has no invariant", li.ord, x.spec.Key)
 	}
@@ -644,6 +649,10 @@ func (x *Exec) loopEnter(st *State, li *loopInfo, from *ssa.BasicBlock) {
 	}
 	st.inLoop[li.ord] = true
 	st.curLoop = li.ord
+	if st.loopHeldBy == nil {
+		st.loopHeldBy = map[int][]HeldLock{}
+	}
+	st.loopHeldBy[li.ord] = append([]HeldLock(nil), st.held...)
 	if st.loopEvStart == nil {
 		st.loopEvStart = map[int]int{}
 	}
@@ -709,7 +718,7 @@ func (x *Exec) loopBackEdge(st *State, li *loopInfo, from *ssa.BasicBlock) {
 			}
 		}
 	}
-	if !sameLocks(st.held, st.loopHeld) {
+	if !sameLocks(st.held, st.loopHeldBy[li.ord]) {
 		st.obligeStaticFail(fmt.Sprintf("lock:loop%d", li.ord), []string{"C09"}, "lock set differs between loop entry and back edge")
 	}
 	x.finish(st, "backedge")
@@ -768,6 +777,23 @@ func (x *Exec) checkCallsSpec(st *State, env *Env, cs *CallsSpec) {
 		snap.heap = hits[0].Heap
 		cenv.st = &snap
 		st.oblige(name, tags, cond, "parameter "+cs.Param+" is called only when the declared condition holds")
+		for _, hspec := range cs.Holding {
+			lname, mode := hspec, "R"
+			if k := strings.Index(hspec, ":"); k >= 0 {
+				lname, mode = hspec[:k], strings.ToUpper(hspec[k+1:])
+			}
+			found := false
+			for _, hl := range hits[0].Held {
+				if strings.HasSuffix(hl.Field, "."+lname) && hl.Mode == mode {
+					found = true
+				}
+			}
+			if found {
+				st.obls = append(st.obls, Obl{Name: "ho:" + cs.Param + "/holding:" + lname, Tags: []string{"C09"}, Goal: TTrue, PCLen: len(st.pc), Static: "ok", Desc: "callback runs holding " + lname})
+			} else {
+				st.obligeStaticFail("ho:"+cs.Param+"/holding:"+lname, []string{"C09"}, "callback is not called while holding "+lname+" ("+mode+") as declared")
+			}
+		}
 		for _, w := range cs.With {
 			st.oblige(fmt.Sprintf("ho:%s/with%d", cs.Param, w.N), x.tagsFor(w.Tags, tags), cenv.evalBool(w.X), "callback argument: "+w.Text)
 		}
